@@ -62,7 +62,7 @@ Qed.
 Lemma step_incomplete q w a : Incomplete w -> Incomplete (fst (step q w a)).
 Proof.
   intros H. unfold step.
-  destruct a as [ops srs|ops srs|cid op pl|cid sr sts|].
+  destruct a as [ops srs|ops srs|cid op pl|cid sr sts| |b].
   - destruct (pend (w_store w)) eqn:Ep; cbn [fst]; [exact H|].
     unfold Incomplete. cbn [w_store pend]. apply new_pending_incomplete.
   - destruct (pend (w_store w)) as [p|] eqn:Ep.
@@ -75,6 +75,7 @@ Proof.
     destruct (negb (p_id p =? cid)); [exact H|].
     destruct (add_sr q p sr sts); [apply finish_incomplete|exact H].
   - cbn [fst]. unfold Incomplete, load_store. destruct (max_snap None (w_files w)); cbn [w_store pend]; exact I.
+  - cbn [fst]. exact H.
 Qed.
 
 Lemma final_incomplete q acts : forall w, Incomplete w -> Incomplete (final q w acts).
@@ -84,7 +85,7 @@ Proof.
 Qed.
 
 Lemma with_pending_same w : with_pending w (pend (w_store w)) = w.
-Proof. destruct w as [[c p k] f]. reflexivity. Qed.
+Proof. destruct w as [[c p k] f b]. reflexivity. Qed.
 
 Theorem bad_acks_inert_lemma acts a :
   let w := final repaired init acts in
@@ -94,7 +95,7 @@ Proof.
   intros w Hbad.
   assert (Hinc : Incomplete w) by (apply final_incomplete; exact I).
   unfold Incomplete in Hinc. unfold bad_ack in Hbad.
-  destruct a as [ops srs|ops srs|cid op pl|cid sr sts|]; try contradiction; unfold step.
+  destruct a as [ops srs|ops srs|cid op pl|cid sr sts| |b]; try contradiction; unfold step.
   - destruct (pend (w_store w)) as [p|] eqn:Ep.
     + destruct (N.eqb_spec (p_id p) cid) as [E|E]; cbn [negb].
       * destruct Hbad as [Hb|Hb]; [contradiction|].
@@ -154,7 +155,7 @@ Lemma step_counter q w a : a <> ARestart ->
      i = ckpt_id (w_store w) + 1 /\ ckpt_id (w_store (fst (step q w a))) = i).
 Proof.
   intros Ha. unfold step.
-  destruct a as [ops srs|ops srs|cid op pl|cid sr sts|]; [| | | |congruence].
+  destruct a as [ops srs|ops srs|cid op pl|cid sr sts| |b]; [| | | |congruence|cbn [fst snd w_store ckpt_id handed]; split; [lia|discriminate]].
   - destruct (pend (w_store w)); cbn [fst snd w_store ckpt_id handed].
     + split; [lia|discriminate].
     + split; [lia|]. intros i E. inversion E. split; reflexivity.
